@@ -116,7 +116,7 @@ def cases(draw, cells):
         if i in (3, 4, 5, 6) and draw(st.booleans()):
             mshf.append([fname, i, draw(field_model(v, ref, ec))[:1]])
     return {'v': v, 'm': m, 'ec': {k: ec[k] for k in ec if k not in ('SEGMENT', 'GROUP')}, 'model': model, 'msh': mshf,
-            'how': draw(st.integers(0, 2))}
+            'how': draw(st.integers(0, 4))}
 
 
 def _enc_field(reps, ec):
@@ -138,27 +138,62 @@ def expected_text(case):
     return '\r'.join(lines)
 
 
-def _populate_field(f, v, ref, comps, how):
+_TEXTUAL = ('ST', 'TX', 'FT', 'ID', 'IS')
+
+
+def _leaf(el, text, v, dt, detached):
+    """leaf content; on a parent-less element a string would be split with the default delimiters (documented), so a text
+    holding one of them goes in as a datatype object there"""
+    if detached and any(c in text for c in '|^~\\&'):
+        if dt not in _TEXTUAL:
+            raise _NeedAttached()
+        el.value = T.lib(v).get_base_datatypes()[dt](text)
+    else:
+        el.value = text
+
+
+def _populate_field(f, v, ref, comps, how, detached=False):
     """fill Field f (already attached) from a component model"""
     ch = T.ref_children(v, ref)
     if not ch:
-        f.value = comps[0][0]
+        _leaf(f, comps[0][0], v, T.ref_dt(ref), detached)
         return
     for j, subs in enumerate(comps):
         if not subs:
             continue
         cname, _, cref, _ = ch[j]
         sub = T.ref_children(v, cref)
+        if how == 3:
+            # the whole component assigned as ER7 text: it is split with the message's sub-component separator
+            ec = f.encoding_chars
+            setattr(f, cname, ec['SUBCOMPONENT'].join(R.trim(subs, '')))
+            continue
         c = f.add_component(cname)
         if not sub:
-            c.value = subs[0]
+            _leaf(c, subs[0], v, T.ref_dt(cref), detached)
         else:
             for k, leafv in enumerate(subs):
                 if leafv != '':
                     if how == 0:
-                        c.add_subcomponent(sub[k][0]).value = leafv
+                        _leaf(c.add_subcomponent(sub[k][0]), leafv, v, T.ref_dt(sub[k][2]), detached)
                     else:
                         setattr(c, sub[k][0], leafv)
+
+
+class _NeedAttached(Exception):
+    pass
+
+
+def _fill_segment(seg, s, fields, v, ec, how, det):
+    srows = {r[0]: r for r in T.seg_fields(v, s)} if not s.startswith('Z') else {}
+    for fname, i, reps in fields:
+        ref = srows[fname][2] if fname in srows else ('leaf', None, 'ST', None, None, -1)
+        for n, comps in enumerate(reps):
+            if how == 2 and n == 0:
+                setattr(seg, fname, _enc_field([comps], ec))
+            else:
+                f = seg.add_field(fname)
+                _populate_field(f, v, ref, comps, 0 if det else how, det)
 
 
 def build(case):
@@ -173,16 +208,23 @@ def build(case):
     for fname, i, reps in case['msh']:
         setattr(msg.msh, fname, _enc_field(reps, ec))          # string assignment: parsed with the message's set
     for s, fields in case['model']:
-        seg = msg.add_segment(s)
-        srows = {r[0]: r for r in T.seg_fields(v, s)} if not s.startswith('Z') else {}
-        for fname, i, reps in fields:
-            ref = srows[fname][2] if fname in srows else ('leaf', None, 'ST', None, None, -1)
-            for n, comps in enumerate(reps):
-                if how == 2 and n == 0:
-                    setattr(seg, fname, _enc_field([comps], ec))
-                else:
-                    f = seg.add_field(fname)
-                    _populate_field(f, v, ref, comps, how)
+        det = how == 4 and not s.startswith('Z')
+        if det:
+            # the segment is built on its own, through element calls only (a string assigned to a parent-less element would
+            # be split with the default delimiters), and attached afterwards
+            from hl7apy.core import Segment
+            seg = Segment(s, version=v, validation_level=TOL)
+            try:
+                _fill_segment(seg, s, fields, v, ec, how, True)
+            except _NeedAttached:
+                det = False
+            else:
+                # touch a few descendants before attaching (whatever they remember must not survive the move)
+                for c in list(seg.children)[:2]:
+                    c.encoding_chars, c.to_er7()
+                msg.add(seg)
+        if not det:
+            _fill_segment(msg.add_segment(s), s, fields, v, ec, how, False)
     return msg
 
 
